@@ -263,6 +263,45 @@ pub fn c02(sc: &Scenario, rr: &RunResult) -> Vec<Violation> {
         out.extend(batcher_order(sc, rr));
     }
     let completed = rr.outcome.verdict == Verdict::Completed && !rr.rec.hosts.iter().any(|h| h.panicked.is_some());
+    if rr.outcome.verdict == Verdict::Deadlock {
+        // Everything is blocked. If every multiplexer waits for more to send and every
+        // demultiplexer waits for more to read, nothing is in the hands of a blocked network
+        // thread; a remote link that still holds sent-but-undelivered batches while its consumer
+        // waits for input has then lost them in transit (e.g. in a buffer nobody flushes).
+        let idle_net = rr.outcome.threads.iter().filter(|t| !t.finished).all(|t| {
+            let what = t.blocked_on.as_ref().map(|b| b.0.as_str()).unwrap_or("");
+            if t.name.starts_with("mux-") {
+                what == "chan.recv"
+            } else if t.name.starts_with("demux-") {
+                what == "tcp.read" || what == "chan.recv"
+            } else {
+                true
+            }
+        });
+        if idle_net {
+            for (k, l) in &rr.rec.links {
+                if k.from.1 != k.to.1 && l.sent.len() > l.recv.len() {
+                    let consumer_waiting = rr.outcome.threads.iter().any(|t| {
+                        !t.finished
+                            && t.host as u64 == k.to.1
+                            && t.name == format!("block-{}", k.to.0)
+                            && t.blocked_on.as_ref().map(|b| b.0.starts_with("chan.recv") || b.0 == "select").unwrap_or(false)
+                    });
+                    if consumer_waiting {
+                        out.push(viol(
+                            "C02",
+                            "link-withheld-in-transit",
+                            format!(
+                                "link {:?} -> {:?} (prev block {}): {} elements were sent, only {} delivered; the job is deadlocked with the consumer waiting for input and every multiplexer / demultiplexer thread idle",
+                                k.from, k.to, k.prev_block, l.sent.len(), l.recv.len()
+                            ),
+                        ));
+                        return out;
+                    }
+                }
+            }
+        }
+    }
     for (k, l) in &rr.rec.links {
         if let Some(p) = l.bad_path {
             out.push(viol("C02", "link-unknown-type", format!("link {:?}: {}", k, p)));
